@@ -121,6 +121,29 @@ fn main() {{
     let tx = db.tx(true).unwrap(); {pre} let esc = {expr};
     std::thread::scope(|s| {{ s.spawn(|| {{ let _x = &esc; }}); }});
 }}'''
+    elif route == "shortbuf":
+        # a key / value / name buffer that dies before the transaction is committed; if the library
+        # accepts it, it must have copied it: the freed memory is overwritten before the commit
+        body = f'''fn main() {{
+    let db = setup();
+    let tx = db.tx(true).unwrap(); {pre}
+    {{ let buf = String::from("short-lived-buffer-0123456789-abcdefghij"); let _ = {expr}; }}
+    let mut junk = Vec::new();
+    for i in 0..64 {{ junk.push(format!("OVERWRITTEN-OVERWRITTEN-OVERWRITTEN-{{:04}}", i)); }}
+    tx.commit().unwrap();
+    let tx = db.tx(false).unwrap();
+    fn walk(b: &Bucket, bad: &mut bool) {{
+        for d in b.cursor() {{
+            if d.key().starts_with(b"OVERWRITTEN") {{ *bad = true; }}
+            if let Data::KeyValue(kv) = &d {{ if kv.value().starts_with(b"OVERWRITTEN") {{ *bad = true; }} }}
+            if let Data::Bucket(n) = &d {{ walk(&b.get_bucket(n).unwrap(), bad); }}
+        }}
+    }}
+    let mut bad = false;
+    for (n, b) in tx.buckets() {{ if n.name().starts_with(b"OVERWRITTEN") {{ bad = true; }} walk(&b, &mut bad); }}
+    assert!(!bad, "a key / value / name buffer that died before commit was read after it was freed");
+    drop(junk);
+}}'''
     else:
         raise ValueError(route)
     return PRELUDE + helpers + body + "\n"
@@ -486,6 +509,52 @@ def surface_programs(jpath):
                 for route in routes:
                     progs.append(dict(id=f"{base}/{route}", origin="surface",
                                       type=f"{tname}::{mname}", route=route, pre=prod["pre"], expr=expr, handle=is_handle, kind=kind))
+    # short-lived key / value / name buffers: for every argument with a ToBytes bound
+    for k, v in idx.items():
+        if v.get("crate_id") != 0 or v.get("visibility") != "public":
+            continue
+        kind = list(v["inner"].keys())[0]
+        if kind not in ("struct", "enum") or v["name"] not in PRODUCERS:
+            continue
+        tname = v["name"]
+        prod = PRODUCERS[tname]
+        for imp in v["inner"][kind].get("impls", []):
+            iv = idx[str(imp)]["inner"]["impl"]
+            if iv.get("trait") or iv.get("blanket_impl") or iv.get("is_synthetic"):
+                continue
+            for iid in iv["items"]:
+                it = idx[str(iid)]
+                if "function" not in it["inner"] or it.get("visibility") != "public":
+                    continue
+                f = it["inner"]["function"]
+                inputs = f["sig"]["inputs"]
+                if not inputs or inputs[0][0] != "self":
+                    continue
+                tb = []
+                for n, (an, aty) in enumerate(inputs[1:]):
+                    if "generic" in aty:
+                        bs = []
+                        for p in f["generics"].get("params", []):
+                            if p["name"] == aty["generic"] and "type" in p.get("kind", {}):
+                                bs = [b.get("trait_bound", {}).get("trait", {}).get("path") for b in p["kind"]["type"].get("bounds", [])]
+                        if any(b and b.endswith("ToBytes") for b in bs):
+                            tb.append(n)
+                for pos in tb:
+                    args = []
+                    ok = True
+                    for n, (an, aty) in enumerate(inputs[1:]):
+                        if n == pos:
+                            args.append("buf.as_str()")
+                        else:
+                            a = synth_arg(an, aty, f["generics"], n)
+                            if a is None:
+                                ok = False
+                                break
+                            args.append(a)
+                    if not ok:
+                        continue
+                    progs.append(dict(id=f"shortbuf/{tname}::{it['name']}/arg{pos}", origin="shortbuf", type=f"{tname}::{it['name']}",
+                                      route="shortbuf", pre=prod["pre"], expr=f'{prod["recv"]}.{it["name"]}({", ".join(args)})', handle=False, kind="probe"))
     for t in PRODUCERS:
         if t not in seen_types:
             uncovered.append(f"producer for {t} but the type is not in the public surface any more")
@@ -531,6 +600,8 @@ def judge_escape(prog, work, rlib, deps):
     res = dict(id=prog["id"], origin=prog["origin"], type=prog["type"], route=prog["route"], expr=prog["expr"])
     thread_route = prog["route"] in ("spawn", "scoped")
     variants = ["bytes", "probe", "sized"] if not thread_route else ["sized"]
+    if prog["route"] == "shortbuf":
+        variants = ["sized"]
     last = None
     for keep in variants:
         src = route_program(prog["route"], prog["pre"], prog["expr"], keep)
@@ -674,7 +745,7 @@ def main():
     if a.wrap:
         wrapped = []
         for p in escapes:
-            if p["route"] in ("spawn", "scoped"):
+            if p["route"] in ("spawn", "scoped", "shortbuf"):
                 continue
             for wname, w in (("some", "Some({})"), ("tuple", "({}, 1u8)"), ("boxed", "Box::new({})"), ("vec", "vec![{}]"), ("closure", "{{ let v = {}; move || {{ let _ = &v; }} }}")):
                 q = dict(p)
